@@ -1,5 +1,5 @@
 """C02 - no history of snapshot/delete/clean damages a remaining snapshot."""
-from harness import cli_hist, core, repo_hist
+from harness import cli_hist, core, remote_hist, repo_hist
 from harness.core import Report
 
 RULE = ('cases = random multi-user histories (2-4 users related as owner/shared/clone/independent, or unencrypted) of snapshot, '
@@ -67,7 +67,7 @@ def local_overlap_probe(ctx, rep):
     _sh.rmtree(root, ignore_errors=True)
 
 
-CLI_MINE = ('exception', 'hang', 'snapshot_unreadable', 'snapshot_objects', 'snapshot_name', 'restore_mismatch', 'referenced_chunk_missing', 'gc_overreach', 'unknown_object', 'stored_bytes')
+CLI_MINE = ('exception', 'hang', 'snapshot_unreadable', 'snapshot_objects', 'snapshot_name', 'restore_mismatch', 'referenced_chunk_missing', 'gc_overreach', 'unknown_object', 'stored_bytes', 'snapshot_not_listed')
 
 
 def _run(ctx, n, nops, rep):
@@ -79,6 +79,8 @@ def _run(ctx, n, nops, rep):
                          ('restore_mismatch', 'referenced_chunk_missing', 'gc_overreach', 'exception', 'unknown_object', 'failed_gc_mutated', 'chunk_mixed_by_overlapping_uploads')]
     # the same property through the tool as a user runs it: fresh `python -m replicat` processes, a repository on disk, real faults
     cli_hist.run_scenarios(ctx, rep, {'plain': ctx.scale(3, 30), 'oserror': ctx.scale(4, 40)}, CLI_MINE)
+    # and over the remote adapters (B2 by bucket name and by bucket id, S3-compatible) against in-memory fake services
+    remote_hist.remote_probe(ctx, rep, ('exception', 'restore_mismatch', 'referenced_chunk_missing'))
 
 
 def run(ctx) -> Report:
@@ -98,6 +100,12 @@ def replay(ctx, obj):
     rc = cli_hist.replay_cli(ctx, obj, CLI_MINE)
     if rc is not None:
         return rc
+    if (obj.get('replay') or {}).get('probe') == 'remote':
+        rep = Report(rule=RULE)
+        remote_hist.remote_probe(ctx, rep, ('exception', 'restore_mismatch', 'referenced_chunk_missing'), deployments=[obj['replay']['deployment']])
+        for v in rep.violations:
+            print('VIOLATION-REPRODUCED', v['what'])
+        return 1 if rep.violations else 0
     rep = Report(rule=RULE)
     seed = (obj.get('replay') or {}).get('seed')
     if seed is None:
